@@ -497,6 +497,7 @@ class Ctx:
         self.none_ok = not _mentions_none(case['ops'])
         self.dflt = DEFAULT
         self.views = {}
+        self.iters = []
 
     def D(self):
         """the next object to hand in as `default`; results are compared with it by identity"""
@@ -665,7 +666,7 @@ class C01(Property):
               ['new', ['mx', [[0, 0]]], []], ['upd', ['p', 'y', [[0, 0], [1, 1], [0, 1]]], []],
               ['ext', ['p', 'y', [[1, 0]]], []], ['new', ['p', 'y', [[0, 1]]], []], ['ior', ['p', 'y', []]],
               ['rej', 'add'], ['rej', 'upd_none'], ['rej', 'poplast'], ['rej', 'addlist_int'],
-              ['fk', [0, 1, 0], 1], ['fk', [1], -1], ['fk', [], 0]]
+              ['fk', [0, 1, 0], 1], ['fk', [1], -1], ['fk', [], 0], ['it', 0], ['it', 1], ['drain']]
         return A
 
     def _core_alphabet(self):
@@ -673,7 +674,7 @@ class C01(Property):
                 ['addlist', 1, 'i', [1, 0]], ['poplast', 0, 0], ['poplast', -1, 0], ['popitem'], ['pop', 1, 1],
                 ['sd', 1, 0], ['upd', ['p', 'l', [[1, 1], [0, 0], [1, 0]]], []], ['upd', ['t'], []],
                 ['ext', ['s'], []], ['cp', 'cc', 't'], ['swap'], ['upd', ['m', [[0, 0], [1, 1]]], []],
-                ['upd', ['mx', [[1, 0], [0, 1]]], []]]
+                ['upd', ['mx', [[1, 0], [0, 1]]], []], ['it', 1], ['drain']]
 
     def _mk(self, ops, i=0, u=None):
         u = u or ('S', 'I', 'S', 'N', 'F')[i % 5]
@@ -706,7 +707,7 @@ class C01(Property):
             for h in itertools.product(core, repeat=n):
                 i += 1
                 yield self._mk(list(h), i)
-        n_rand = 60000 if self.thorough else 5000
+        n_rand = 60000 if self.thorough else 3500
         for j in range(n_rand):
             yield self.random_case(rng, long=self.thorough and j % 8 == 0)
 
@@ -794,6 +795,8 @@ class C01(Property):
                 ops.append(['popitem'])
             elif r < 0.705:
                 ops.append(['clear'])
+            elif r < 0.71:
+                ops.append(['it', rng.randint(0, 3)] if rng.random() < 0.7 else ['drain'])
             elif r < 0.715:
                 ops.append(['rej', rng.choice(REJECTS)])
             elif r < 0.72:
@@ -899,6 +902,13 @@ class C01(Property):
         H.append([['rej', w] for w in REJECTS])
         for ks in ([0, 1, 0, 3, 0], [], [2], [1, 1, 1]):
             H.append([base, ['fk', ks, 2], ['add', 0, 1], ['poplast', 0, 0], ['fk', ks, -1], ['eq', ['t']]])
+        # iterators left half-consumed while the dictionary changes under them, drained later: whatever they yield
+        # (not prescribed), the dictionary itself must stay the plain list of pairs
+        for m in (['add', 0, 3], ['set', 0, 3], ['del', 0], ['addlist', 0, 'i', [1, 2]], ['pop', 0, 0], ['popall', 1, 0],
+                  ['poplast', 0, 0], ['poplast', -1, 0], ['popitem'], ['sd', 3, 1], ['upd', ['p', 'g', [[3, 0], [3, 1], [0, 0]]], []],
+                  ['upd', ['m', [[0, 1], [3, 1]]], []], ['ext', ['s'], []], ['clear'], ['cp', 'cc', 's']):
+            H.append([base, ['it', 1], m, ['it', 2], ['poplast', 0, 1], ['drain'], ['add', 0, 1], ['it', 0], ['clear'], ['drain'],
+                      ['add', 1, 1]])
         # caller-supplied defaults (falsy ones included) for every method that takes one, on absent and present keys
         D = [['pop', 3, 1], ['poplast', 3, 1], ['popall', 3, 1], ['poplast', -1, 1]]
         H.append(D * 4)
@@ -979,6 +989,8 @@ class C01(Property):
                 toks.append(o)
             elif o == 'rej':
                 toks.append('rej')
+            elif o in ('it', 'drain'):
+                toks.append('nop')
             elif o == 'fk':
                 toks.append('fk:%s:%d' % (','.join(map(str, op[1])) or '-', NONE_V if op[2] < 0 else op[2]))
             elif o == 'cp':
@@ -1155,6 +1167,26 @@ class C01(Property):
                     return ['KV', cx.kid(r[0]), cx.vid(r[1])], s, t
                 elif o == 'clear':
                     r = s.clear()
+                elif o == 'it':
+                    its = [s.iteritems(multi=True), s.iterkeys(), s.itervalues(), iter(s), reversed(s), s.iteritems(),
+                           s.iterkeys(multi=True), s.itervalues(multi=True), iter(s.viewitems()), iter(s.viewvalues())]
+                    for it in its:
+                        for _ in range(op[1]):
+                            next(it, None)
+                    cx.iters += its
+                    return ['N'], s, t
+                elif o == 'drain':
+                    for it in cx.iters:
+                        try:
+                            for _ in range(100000):
+                                if next(it, cx) is cx:
+                                    break
+                        except CaseTimeout:
+                            raise
+                        except Exception:
+                            pass            # a stale iterator may refuse to go on (like dict's own); that is its business
+                    cx.iters = []
+                    return ['N'], s, t
                 elif o == 'rej':
                     self._rejected_call(cx, cls, s, op[1])
                     return ['RA'], s, t      # accepted after all: also fine as long as nothing changed
@@ -1424,6 +1456,8 @@ class C01(Property):
                   'VL' + e(d['vl'], lambda l: str(l[0]) if l[0] == l[1] == l[2] else '?%r' % (l,)),
                   'VV' + e(d['vv'], self._nats), 'VI' + e(d['vi'], self._pairs), 'VC' + e(d['vc'], bits),
                   'VIC' + e(d['vic'], lambda ll: ''.join(bits(l) for l in ll)), 'VVC' + e(d['vvc'], bits)]
+            f.append('RP' + ('C([%s])' % ', '.join('(%s, %s)' % (k, v) for k, v in d['im'])
+                             if d['repr'] == 1 and not isinstance(d['im'], dict) else '?%r' % (d['repr'],)))
             f.append('T' + e(d['t'], self._pairs))
             f.append('OW' + e(d['ow'], lambda l: ','.join('%s=%s' % (k, self._vals(vs)) for k, vs in l)))
             recs.append(' '.join(f))
@@ -1607,6 +1641,8 @@ class C01(Property):
                     removed = True
             elif name == 'clear':
                 L = []
+            elif name in ('it', 'drain'):
+                pass
             elif name == 'rej':
                 # outside the domain of the statement: any exception (or none) is fine, the pairs must stay as they are
                 exp_fn = lambda ret: None if ret[0] in ('X', 'RA') else 'a call outside the domain returned %r' % (ret,)
